@@ -15,15 +15,19 @@ from .common import Prover, Check, mval
 from .daemon_extract import load_dlib_program, time_env, time_consts, f64_hex, TRACKING_FIELDS
 
 CLS = {0: 'Unknown', 1: 'Synchronized', 2: 'FreeRunning'}
+NS = 10 ** 9
 REF_BASE = 10 ** 18        # reference times of the reports: REF_BASE - age, age in [0, 10 ms] (always fresh; the class is the oracle's)
 
 
 class UpdaterModel:
-    def __init__(self, prog):
+    def __init__(self, prog, ref_span_ns=10 ** 7):
         self.prog = prog
         self.n = 0
+        self.ref_span_ns = ref_span_ns
+        # std::time inside the updater (should it look at the report's reference time itself): exact integer ns, "now" = REF_BASE (the
+        # instant the native replay's virtual realtime clock shows)
         self.ex = Exec(prog, env=[(r'(^|::)extract_bound_from_tracking$', self.h_extract), (r'^<W as ShmWrite>::write$', self.h_publish),
-                                  (r'^<W as ShmWrite>::(?!write$)\w+$', self.h_writer_other)])
+                                  (r'^<W as ShmWrite>::(?!write$)\w+$', self.h_writer_other)] + time_env(z3.IntVal(REF_BASE)))
         self.writer_queries = []
         self.ex.const_hooks = time_consts()
         names = prog.struct_fields.get('ShmUpdater') or []
@@ -47,7 +51,7 @@ class UpdaterModel:
         report, fixed before the code runs, whether or not the code asks for it - and its reference time"""
         self.n += 1
         b = z3.Int('ext_bound_%d' % self.n); c = z3.Int('ext_class_%d' % self.n); ref = z3.Int('ref_ns_%d' % self.n)
-        self.ex.side.append(z3.And(c >= 0, c <= 2, b >= -2 ** 63, b < 2 ** 63, ref >= REF_BASE - 10 ** 7, ref <= REF_BASE))
+        self.ex.side.append(z3.And(c >= 0, c <= 2, b >= -2 ** 63, b < 2 ** 63, ref >= REF_BASE - self.ref_span_ns, ref <= REF_BASE))
         self.dom_vars.append(b)
         self.cur = (b, c, ref)
         f = {n: Opaque('tracking.' + n) for n in TRACKING_FIELDS}
@@ -200,12 +204,12 @@ def spec_after(hist, drift):
     return bound, as_s, as_n, cls, seen
 
 
-def hist_domain(hist):
+def hist_domain(hist, phc_any_sign=False):
     dom = []
     for d in hist:
         if d['kind'] == 0:
             b, c = d['ext']
-            dom += [b >= 0, b < 2 ** 61, d['phc'] >= 0, d['phc'] < 2 ** 61, d['as_s'] >= 0, d['as_s'] < 2 ** 40, d['as_n'] >= 0, d['as_n'] < 10 ** 9]
+            dom += [b >= 0, b < 2 ** 61, d['phc'] >= (-2 ** 61 if phc_any_sign else 0), d['phc'] < 2 ** 61, d['as_s'] >= 0, d['as_s'] < 2 ** 40, d['as_n'] >= 0, d['as_n'] < 10 ** 9]
     return dom
 
 
@@ -235,8 +239,8 @@ def native_history(rp, m, hist, drift_val, stale_variant=False, prefix=(), cmd='
                 leap = ml; age = -10 ** 9
             if stale_variant and c == 2:
                 leap = 0 if leap == 3 else leap; age = 10 ** 12
-            phc = max(0, min(mval(m, d['phc']) or 0, 2 ** 40))
-            toks.append('R,%s,%s,%s,%s,%d,%d,%d,%d,%d' % (f64_hex(0.0), f64_hex(0.0), f64_hex(disp), f64_hex(16.0), leap, age, phc, mval(m, d['as_s']), mval(m, d['as_n'])))
+            phc = max(-2 ** 40, min(mval(m, d['phc']) or 0, 2 ** 40))
+            toks.append('R,%s,%s,%s,%s,%d,%d,%d,%d,%d' % (f64_hex(0.0), f64_hex(0.0), f64_hex(disp), f64_hex(4096.0 if (c == 1 and age > 100 * NS) else 16.0), leap, age, phc, mval(m, d['as_s']), mval(m, d['as_n'])))
             expect.append(('R', c, ms, phc, b, mval(m, d['as_s']), mval(m, d['as_n'])))
         elif d['kind'] == 1:
             toks.append('G'); expect.append(('G',))
@@ -278,6 +282,8 @@ def oracle_history(out, expect, drift, prop):
         exp_status = cls if seen else 0
         if prop == 'C09' and not seen and status != 0:
             bad.append('C09: step %d (%s) before any synchronised report publishes status %s with bound %d, as_of (%d,%d)' % (i + 1, e[0], CLS.get(status, status), bound, as_s, as_n))
+        if prop == 'C09' and seen and status != 0 and cur is not None and (as_s, as_n) != cur[:2]:
+            bad.append('C09: step %d (%s) publishes status %s with as_of (%d,%d), bound %d: not the as-of of the synchronised report (%d,%d) - the status is advertised next to a placeholder, the measurement was not taken over' % (i + 1, e[0], CLS.get(status, status), as_s, as_n, bound, cur[0], cur[1]))
         if prop == 'C08':
             if seen and status != exp_status:
                 bad.append('C08: step %d (%s): status %s, expected %s' % (i + 1, e[0], CLS.get(status, status), CLS[exp_status]))
@@ -388,6 +394,54 @@ def drift_published_part(ck, prog, seed, tier):
     ck.cov['drift_in_record_histories'] = nh
     ck.cov['counterexamples_replayed'] = ck.cov.get('counterexamples_replayed', 0) + stats[0]
     ck.cov['counterexamples_confirmed'] = ck.cov.get('counterexamples_confirmed', 0) + stats[1]
+    return H
+
+
+def void_after_part(ck, prog, seed, tier):
+    """C06's premise about the daemon: every record it publishes is void no earlier than 5 s after its as-of (the client tests the 5 s
+    restart grace period before it tests void_after).  All histories of <= H outcomes through the real updater, reports with reference
+    times up to 2000 s old."""
+    um = UpdaterModel(prog, ref_span_ns=2000 * NS)
+    drift = z3.Int('drift')
+    H = 2 if tier == 'quick' else 3
+    pr = Prover(seed)
+    rp = common.Replay('debug')
+    nside = 0
+    nh = 0
+
+    def confirm_for(hist):
+        def confirm(m):
+            dv = mval(m, drift)
+            out, expect = native_history(rp, m, hist, dv)
+            if not out.startswith('ok'):
+                return None
+            recs = [tuple(int(x) for x in r.split(':')) for r in out.split()[1:]]
+            for i, r in enumerate(recs):
+                a_ns = r[0] * NS + r[1]; v_ns = r[2] * NS + r[3]
+                if v_ns < a_ns + 5 * NS:
+                    ck.violation('void-after-within-the-grace-period', 'step %d of the history [%s] (a report whose reference time is %s s old): the real ShmUpdater publishes as_of %d.%09d with void_after %d.%09d, less than 5 s later - a client reading it inside the 5 s grace period reports the stored status although the record is already void'
+                                 % (i + 1, ' '.join(e[0] + (CLS[e[1]][0] if e[0] == 'R' else '') for e in expect), [((REF_BASE - mval(m, d['ref'])) // NS) for d in hist if d['kind'] == 0], r[0], r[1], r[2], r[3]),
+                                 {'cmd': 'history', 'native': out, 'steps': [str(e) for e in expect]})
+                    return 'void_after'
+            return None
+        return confirm
+    for h in range(1, H + 1):
+        hists = run_history(um, h, drift)
+        pr.add(um.ex.side[nside:]); nside = len(um.ex.side)
+        for st, hist in hists:
+            last = hist[-1]
+            if last['rec'] is None:
+                continue
+            nh += 1
+            label = 'history[%s]' % ''.join('RGN'[d['kind']] for d in hist)
+            pcd = z3.And(st.pcond(), *(hist_domain(hist) + [drift >= 0, drift < 2 ** 32]))
+            f = rec_fields(last['rec'])
+            refs = [d['ref'] for d in hist if d['kind'] == 0]
+            pr.prove_cegar(label + '/the record published last is void no earlier than 5 s after its as-of', pcd, (f[2] - f[0]) * NS + (f[3] - f[1]) >= 5 * NS, confirm_for(hist), lambda m: [],
+                           hints=[[z3.And([r_ == REF_BASE - 997 * NS for r_ in refs])] if refs else [], [z3.And([r_ <= REF_BASE - 1000 * NS for r_ in refs])] if refs else []])
+    rp.close()
+    ck.absorb(pr, 'daemon: ')
+    ck.cov['void_after_histories'] = nh
     return H
 
 
@@ -511,8 +565,9 @@ def message_loop_part(ck, prog, seed):
     ck.absorb(pr, 'loop: ')
 
 
-def run_check(prop, tier, seed):
-    ck = Check(prop, tier, seed)
+def run_check(prop, tier, seed, owner=None, only_clauses=None):
+    """owner / only_clauses: run (some of) the clauses of `prop` as part of another property's check; the Check is returned unfinished"""
+    ck = Check(owner or prop, tier, seed)
     t0 = time.time()
     prog, mir_wall = load_dlib_program()
     um = UpdaterModel(prog)
@@ -565,9 +620,10 @@ def run_check(prop, tier, seed):
             pc = st.pcond()
             last = hist[-1]
             label = 'history[%s]' % ''.join('RGN'[d['kind']] for d in hist)
-            dom = z3.And(hist_domain(hist) + drift_dom)
+            # C09: the PHC term comes verbatim from a sysfs file (an i64): negative values included
+            dom = z3.And(hist_domain(hist, phc_any_sign=(prop == 'C09')) + drift_dom)
             pcd = z3.And(pc, dom)
-            if prop == 'C08':
+            if prop == 'C08' and only_clauses is None:
                 pr.prove_cegar(label + '/exactly one publication per outcome', pcd, z3.BoolVal(last['npub'] == h), confirm_for(hist, 'publication-count'), lambda m: [], need_reach=False)
             if last['rec'] is None:
                 continue
@@ -581,11 +637,20 @@ def run_check(prop, tier, seed):
                     'once synchronised, status follows the latest outcome': z3.Implies(seen, stt == cls),
                 }
             else:
-                clauses = {'no status other than Unknown before the first synchronised report': z3.Implies(z3.Not(seen), stt == 0)}
+                clauses = {'no status other than Unknown before the first synchronised report': z3.Implies(z3.Not(seen), stt == 0),
+                           # ... and a status other than Unknown always travels with the as-of instant of a synchronised report (not
+                           # with the placeholder): a first synchronised report whose measurement the updater discards must not count
+                           'a status other than Unknown is published with the as-of of the latest synchronised report': z3.Implies(stt != 0, z3.And(seen, a_s == ss, a_n == sn))}
             for name, cl in clauses.items():
+                if only_clauses is not None and not any(name.startswith(x) for x in only_clauses):
+                    continue
                 pr.prove_cegar(label + '/' + name, pcd, cl, confirm_for(hist, name[:30]), lambda m: [])
     pr.add(um.ex.side[nside:]); nside = len(um.ex.side)
     ck.cov['histories'] = nhist
+    if owner:
+        ck.absorb(pr)
+        rp.close(); rp2.close()
+        return ck
     if prop == 'C08':
         # no overflow / panic inside the updater for bounds and PHC terms below 2^61
         gdom = [z3.And(v >= 0, v < 2 ** 61) for v in um.dom_vars] + [z3.And(v >= 0, v < 2 ** 40) for v in um.asof_vars] + drift_dom
@@ -659,6 +724,19 @@ def run_check(prop, tier, seed):
                                  {'cmd': 'msgloop 1000 ' + ' '.join(sq), 'native': b_, 'history': a_})
                     break
             rp_.close()
+    if prop == 'C08' and not ck.violations:
+        # clause (d) rests on the class of each report: the real classifier (extract_bound_from_tracking) assigns the documented class to
+        # every report - the clauses of C10, discharged here on the same tree and reported under C08
+        try:
+            from .daemon_extract import check_c10
+            sub = check_c10(tier, seed, owner='C08')
+            for key, desc, path in sub.violations:
+                ck.violations.append(('classifier:' + key, 'the class of a report (on which the published status rests): ' + desc, path))
+            ck.inconclusive += ['classifier: ' + i for i in sub.inconclusive]
+            for k_ in ('obligations', 'discharged', 'queries', 'evaluations', 'distinct_nontrivial'):
+                ck.cov[k_] = ck.cov.get(k_, 0) + sub.cov.get(k_, 0)
+        except EngineError as e:
+            ck.inconclusive.append('classifier (extract_bound_from_tracking): %s' % e)
     if prop == 'C09':
         try:
             first_report_composed(ck, prog, seed)
